@@ -44,7 +44,8 @@
    for exhaustive multi-article enumeration), "pairs" (whole articles  [heading] text X heading
    Y text  for EVERY ordered pair (X, Y) of block kinds: the last block of a section against
    the first block of the next one, plus every ordered pair of adjacent figures), "runs3" / "runs5all" (whole articles around a
-   run of k <= 3 / 5 consecutive figures, galleries or tables, for every k x follower x preceder),
+   run of k <= 3 / 5 consecutive figures, galleries, tables or image-only paragraphs, for every
+   k x follower x preceder),
    "share" / "sharesame" (books whose articles have a book-level identifier in common: a
    reference name defined in each with its own text and re-used, a stored image, a template, an
    identical section heading, an external URL; the harness also repeats the title word of a
@@ -256,6 +257,10 @@ Full(n) ==
          P(Table(<<>>, <<<<PlainCell(n), Cell(FALSE, <<>>, <<ListOf(n + 1, <<"*", "*">>, "n")>>)>>>>), 3),
          \* a nested table
          P(Table(<<>>, <<<<PlainCell(n), Cell(FALSE, <<>>, <<Table(<<>>, Grid(n + 1, 1, 2, "none"))>>)>>>>), 3),
+         \* an inline image as the only content of a cell / of a list item / of a paragraph inside a cell
+         P(Table(<<>>, <<<<Cell(FALSE, <<IM(1, n)>>, <<>>), PlainCell(n + 1)>>>>), 2),
+         P(Table(<<>>, <<<<Cell(FALSE, <<>>, <<Para(<<IM(2, n)>>), Para(<<W(n + 1, "n")>>)>>), PlainCell(n + 2)>>>>), 3),
+         P(List(<<Line("*", <<IM(3, n)>>), Line("*", <<W(n + 1, "n")>>)>>), 2),
          \* a nested table with its own caption
          P(Table(<<>>, <<<<PlainCell(n), Cell(FALSE, <<>>, <<Table(<<W(n + 1, "n")>>, Grid(n + 2, 1, 2, "row"))>>)>>>>), 4) }
   \cup { P(Fig(FG(i, k, n, "n")), 1) : i \in {1, 2}, k \in FigKinds }
@@ -319,7 +324,7 @@ PairsAll(n) ==
 \* a whole article around a RUN of k consecutive blocks of one kind (figures of mixed float kinds
 \* on the same or on different stored images, optionally with a template call as last caption;
 \* one-image galleries; tables):   preceder  run  follower
-RunKinds  == <<"fig", "gallery", "table">>
+RunKinds  == <<"fig", "gallery", "table", "imgpara">>    \* imgpara: a paragraph that holds nothing but an inline image
 Followers == <<"end", "head", "table", "gallery", "pre", "para", "list">>
 Preceders == <<"para", "head", "table">>
 Mixes     == <<"r", "l", "c", "x">>             \* all right / all left / all centred / rotating
@@ -331,6 +336,7 @@ RunBlocks(rk, k, mix, same, tplast, n) ==
                                               ELSE FG(IF same THEN 1 ELSE ((j - 1) % 3) + 1, FigKindAt(mix, j), n + j - 1, "n"))]
     [] rk = "gallery" -> [j \in 1..k |-> Gallery(0, 0, <<GI(IF same THEN 1 ELSE ((j - 1) % 3) + 1, n + j - 1, "n")>>)]
     [] rk = "table"   -> [j \in 1..k |-> Table(<<>>, Grid(n + 2 * (j - 1), 1, 2, "none"))]
+    [] rk = "imgpara" -> [j \in 1..k |-> Para(<<IM(IF same THEN 1 ELSE ((j - 1) % 3) + 1, n + j - 1)>>)]
 RunUsed(rk, k) == IF rk = "table" THEN 2 * k ELSE k
 \* "every section has body text": a run directly after a heading cannot also end the section
 PrecederOf(p, f) == IF p = "head" /\ f \in {"end", "head"} THEN "para" ELSE p
@@ -353,7 +359,7 @@ RunArticle(rk, k, f, p0, mix, same, tplast, n) ==
 Runs(maxk, all, n) ==
   { RunArticle(RunKinds[r], k, Followers[fi], Preceders[pi], Mixes[((k + 2 * fi + 3 * pi) % 4) + 1],
                (k + fi + pi) % 2 = 0, (k + fi + 2 * pi) % 3 = 0, n) :
-      r \in 1..3, k \in 1..maxk, fi \in 1..Len(Followers), pi \in 1..Len(Preceders) }
+      r \in 1..Len(RunKinds), k \in 1..maxk, fi \in 1..Len(Followers), pi \in 1..Len(Preceders) }
   \cup (IF all THEN
          { RunArticle("fig", k, Followers[fi], Preceders[pi], Mixes[mi], same, tplast, n) :
              k \in 1..maxk, fi \in 1..Len(Followers), pi \in 1..Len(Preceders), mi \in 1..Len(Mixes),
